@@ -38,6 +38,22 @@ func checkC11(c *Ctx) {
 	if !m.ok(c, "C11") {
 		return
 	}
+	// R5: the visit map stays private (premise decided by C07.R1): a snapshot holding the live map, or a runner adopting the
+	// map of a snapshot, lets later jumps (or the host) change counts that the property says only jumps and restores change
+	c.rule("C11.R5", "the visit map is private to the runner: the map handed out by Snapshot and the map adopted by RestoreAt are fresh copies (C07.R1 on the visit map)", 2)
+	{
+		n5 := 0
+		for _, o := range otherRuleObligations(w, "C07.R1") {
+			if o.Rule != "C07.R1" || m.fVis == nil || !strings.Contains(strings.ToLower(o.Key), strings.ToLower(m.fVis.Name())) {
+				continue
+			}
+			n5++
+			c.ob("C11.R5", o.Key, o.Pos, o.OK, map[bool]string{true: "C07.R1 holds: " + o.How, false: "the visit counts become reachable from outside the runner (C07.R1 fails: " + o.How + "): counts recorded in a snapshot change with later jumps, or a restored runner shares its counts"}[o.OK])
+		}
+		if n5 == 0 {
+			c.undecided("C11.R5", "premise C07.R1 produced no obligation about the visit map")
+		}
+	}
 	info := m.pkg.TypesInfo
 	if m.incVisit == nil {
 		c.ob("C11.R1", "visit-update", w.Pos(m.jump.Decl.Pos()), false, "no function updates the visit map in place: nodes are never counted")
